@@ -104,7 +104,11 @@ func form(p *reflist.Plan) string {
 	case "cdr", "rest", "copy-list", "copy-seq", "reverse", "nreverse", "remove-duplicates", "delete-duplicates":
 		return set("(" + op.F + " " + a + ")")
 	case "nconc-end":
-		return set("(nconc (nthcdr " + n + " " + a + ") " + b + ")")
+		// the end of the list as cdr of its last cell (nthcdr and last at the end give nil, a fresh value)
+		if p.N%2 == 0 {
+			return set("(nconc (cdr (last " + a + ")) " + b + ")")
+		}
+		return set("(nconc (rest (nthcdr " + strconv.Itoa(p.N-1) + " " + a + ")) " + b + ")")
 	case "nthcdr":
 		return set("(nthcdr " + n + " " + a + ")")
 	case "last1":
